@@ -26,7 +26,7 @@ def last_current(out):
 
 
 def died(rc, out):
-    return rc != 0 and ("panic:" in out or "fatal error:" in out or rc < 0 or "exit status 2" in out)
+    return rc != 0 and ("panic:" in out or "fatal error:" in out or "exit status 2" in out) and "E4-INCONCLUSIVE" not in out
 
 
 def report_crash(ctx, conf_line, out, where):
@@ -94,6 +94,12 @@ def oracle_hostile(ctx, ops, impl):
                     ctx.violation("unknown-reply", "unexpected reply %r" % txt[:60], o + "\n")
             if any(c.startswith("E_") for c in codes[:-1]):
                 ctx.violation("error-not-fatal", "an error reply was not the last reply of the connection", o + "\n")
+            # a connection that has ended (however it ended) is in no answer any more
+            ghost = [x for x in q if (x.startswith("N=") or x.startswith("D=")) and
+                     re.search(r"(=|,|\[| )%s:" % w[2], x)]
+            if ghost:
+                ctx.violation("ghost-connection:" + w[1], "connection %s has ended but nsqlookupd still lists it: %s" % (
+                    w[2], ghost[0][:200]), "\n".join([ops[0]] + [o]) + "\n")
             ctx.count_case(" ".join(w[3:])[:300], nontrivial=len(codes) > 1 or (len(codes) == 1 and not codes[0].startswith("E_BAD_PROTOCOL")))
             if by is not None:
                 nd = [x for x in q if x.startswith("N=")]
@@ -151,9 +157,18 @@ def oracle_sweep(ctx, ops, impl):
 def liveness(ctx, binp, params=None):
     """concurrent liveness leg: readers on every read route + TCP peers + admin calls, then probes"""
     env = {"VERIF_MS": ctx.budget(2000, 8000), "VERIF_READERS": ctx.budget(6, 10), "VERIF_PEERS": ctx.budget(4, 8),
-           "VERIF_DEADLINE_MS": 4000}
+           "VERIF_DEADLINE_MS": 10000}
     env.update(params or {})
-    rc, out = e4.run_test(ctx, binp, "TestVerifE4Liveness", env, 120)
+    real = lambda rc_, out_: died(rc_, out_)
+    rc, out = e4.run_test(ctx, binp, "TestVerifE4Liveness", env, 180)
+    if rc != 0 and not real(rc, out):
+        # a wedge must persist in a fresh daemon under a fresh load; slowness of a loaded box does not
+        first = [l for l in out.splitlines() if l.startswith("LIVENESS-WEDGED")] or [e4.inconclusive_reason(rc, out)]
+        ctx.log("liveness leg failed (%s); re-running once" % first[0][:200])
+        rc2, out2 = e4.run_test(ctx, binp, "TestVerifE4Liveness", env, 180)
+        if rc2 == 0:
+            ctx.notes.append("liveness leg: first run failed (%s); the re-run with a fresh daemon passed" % first[0][:300])
+        rc, out = rc2, out2
     ok = [l for l in out.splitlines() if l.startswith("LIVENESS-OK")]
     wedged = [l for l in out.splitlines() if l.startswith("LIVENESS-WEDGED")]
     mix = [l for l in out.splitlines() if l.startswith("LIVENESS-MIX")]
@@ -177,7 +192,7 @@ def liveness(ctx, binp, params=None):
 
 def run_replay(ctx, binp, path, label, must_pass_key=None):
     """a committed replay runs in its own process (it may kill it)"""
-    rc, out = e4.run_test(ctx, binp, "TestVerifE4Replay", {"VERIF_REPLAY": path}, timeout=300)
+    rc, out = e4.run_leg(ctx, binp, "TestVerifE4Replay", {"VERIF_REPLAY": path}, timeout=300, real_failure=died)
     ops_all = [l for l in e4.read_lines(path) if l.strip() and not l.startswith("#")]
     if rc != 0 or "E4-REPLAY-DONE" not in out:
         if died(rc, out):
@@ -216,7 +231,7 @@ def run(ctx):
     if binp and ctx.replay_in and first and first[0].startswith("liveness"):
         kv = dict(x.split("=") for x in first[0].split()[1:])
         broken += liveness(ctx, binp, {"VERIF_MS": kv.get("ms", 2000), "VERIF_READERS": kv.get("readers", 6),
-                                       "VERIF_PEERS": kv.get("peers", 4), "VERIF_DEADLINE_MS": kv.get("deadline_ms", 4000)})
+                                       "VERIF_PEERS": kv.get("peers", 4), "VERIF_DEADLINE_MS": kv.get("deadline_ms", 10000)})
         print("liveness: %s" % (ctx.corr.get("liveness") or "WEDGED"))
     elif binp and ctx.replay_in:
         broken += run_replay(ctx, binp, os.path.abspath(ctx.replay_in), "replay")
@@ -233,7 +248,7 @@ def run(ctx):
         # 2. hostile streams
         nsh = ctx.budget(4, 12)
         jobs = [(binp, "TestVerifE4Hostile", {"VERIF_N": ctx.budget(600, 12000), "VERIF_SHARD": s}, 1500) for s in range(nsh)]
-        res = e4.run_parallel(ctx, jobs, workers=nsh)
+        res = e4.run_parallel(ctx, jobs, workers=nsh, real_failure=died)
         for s, (rc, out) in enumerate(res):
             ops = e4.read_lines(os.path.join(ctx.work, "hostile_%d.ops" % s))
             if rc != 0:
@@ -257,7 +272,7 @@ def run(ctx):
         # 3. HTTP sweep (in-process router; thorough: also over real HTTP, all value classes)
         sweeps = [{}] if not ctx.thorough() else [{"VERIF_FULL": "1"}, {"VERIF_REALHTTP": "1"}]
         for env in sweeps:
-            rc, out = e4.run_test(ctx, binp, "TestVerifE4HttpSweep", env, 900)
+            rc, out = e4.run_leg(ctx, binp, "TestVerifE4HttpSweep", env, 900, real_failure=died)
             if rc != 0:
                 if died(rc, out):
                     ctx.violation("crash:http-sweep", "nsqlookupd died during the HTTP sweep", out[-3000:])
